@@ -184,10 +184,11 @@ def _style_declarations(base):
     """
     Recursively find all CSSStyleDeclarations.
     """
+    if hasattr(base, 'style'):
+        # e.g. the declarations of @page come before its margin rules
+        yield base.style
     for rule in getattr(base, 'cssRules', ()):
         yield from _style_declarations(rule)
-    if hasattr(base, 'style'):
-        yield base.style
 
 
 def getUrls(sheet):
